@@ -421,11 +421,11 @@ pub fn check_set_state_mutations(set: &SolutionSet) -> Result<(), InvalidSolutio
         return Err(InvalidSetStateMutations::TooMany(set.state_mutations_len()).into());
     }
 
-    // Ensure that no more than one mutation per slot is proposed.
+    // Ensure that no more than one mutation per slot (contract and key) is proposed by the set.
+    let mut mut_keys = HashSet::new();
     for solution in &set.solutions {
-        let mut mut_keys = HashSet::new();
         for mutation in &solution.state_mutations {
-            if !mut_keys.insert(&mutation.key) {
+            if !mut_keys.insert((&solution.predicate_to_solve.contract, &mutation.key)) {
                 return Err(InvalidSetStateMutations::MultipleMutationsForSlot(
                     solution.predicate_to_solve.clone(),
                     mutation.key.clone(),
